@@ -197,6 +197,38 @@ func (r *c11Runner) fire() {
 		r.lab("LConnDie")
 		r.lab("LReadFail")
 		r.failHeld()
+	case "rkind":
+		st.killKind(c11KindByName(r.f.ek), r.f.once)
+		r.lab("LConnDie")
+		r.lab("LReadFail")
+		r.failHeld()
+	case "wkind0", "wkindp":
+		// the Write of the call started last reports the failure first; that call must return
+		// on its own (nobody else has noticed anything yet); then the reads fail in the same kind
+		k := c11KindByName(r.f.ek)
+		c := r.sc.script[r.f.pos-1].idx
+		r.lab("LConnDie")
+		if r.held[c] {
+			st.mu.Lock()
+			w := st.pendingWrite(r.callID[c], net.Call)
+			n := 0
+			if w != nil && r.f.kind == "wkindp" {
+				n = len(w.buf) / 2
+			}
+			st.mu.Unlock()
+			st.releaseWrite(r.callID[c], net.Call, n, k.mk("write"))
+			r.held[c] = false
+			r.lab("LCallSendFail %d", c)
+			full := r.hang
+			if r.waitCall(c, r.hang) {
+				r.lab("LCallRemove %d", c)
+			} else {
+				r.failf("call %d: its Write failed (%s) and it did not return within %v (the reads had not failed yet)", c, r.f.ek, full)
+			}
+		}
+		st.killKind(k, r.f.once)
+		r.lab("LReadFail")
+		r.failHeld()
 	case "lclose":
 		done := make(chan error, 1)
 		ep := r.ep
@@ -225,7 +257,13 @@ func (r *c11Runner) frame(step c11Step, pos int) {
 		if !r.waitIdle("before fragment") {
 			return
 		}
-		if inside && r.f.kind == "dataeof" && r.f.frag == i+1 {
+		if inside && (r.f.kind == "dataeof" || r.f.kind == "dkind") && r.f.frag == i+1 {
+			// the fragment is returned together with the error: basic.ReadN takes a frame completed
+			// in this way only when the error is io.EOF
+			var with error = io.EOF
+			if r.f.kind == "dkind" {
+				with = c11KindByName(r.f.ek).mk("read")
+			}
 			r.faulted = true
 			r.obs.pendingAtFault = r.inFlight()
 			copy(r.obs.subEarly, r.subReg)
@@ -234,9 +272,16 @@ func (r *c11Runner) frame(step c11Step, pos int) {
 			r.st.holdCl, r.st.holdFrom = r.hold, 1
 			r.st.mu.Unlock()
 			r.faultAt = time.Now()
-			r.st.feed(fr, true)
-			r.st.kill(io.EOF, false)
-			if i == len(frs)-1 {
+			r.st.feed(fr, with)
+			if r.f.kind == "dkind" {
+				r.st.killKind(c11KindByName(r.f.ek), r.f.once)
+				r.st.mu.Lock()
+				r.st.rdFired = 1 // the error was reported once, with the data
+				r.st.mu.Unlock()
+			} else {
+				r.st.kill(io.EOF, false)
+			}
+			if i == len(frs)-1 && with == io.EOF {
 				r.lab("LPeerMsg (%s)", term)
 				r.lab("LConnDie")
 				r.lab("LDispatch")
@@ -248,11 +293,11 @@ func (r *c11Runner) frame(step c11Step, pos int) {
 			r.failHeld()
 			return
 		}
-		if inside && r.f.kind != "dataeof" && r.f.frag == i {
+		if inside && r.f.kind != "dataeof" && r.f.kind != "dkind" && r.f.frag == i {
 			r.fire()
 			return
 		}
-		r.st.feed(fr, false)
+		r.st.feed(fr, nil)
 	}
 	if !r.waitIdle("after frame") {
 		return
